@@ -496,10 +496,10 @@ Proof. intros st I. apply (Inv_transfer st); cbn; auto; apply I. Qed.
 Lemma Inv_set_halt : forall st, Inv st -> Inv (set_halt st).
 Proof. intros st I. apply (Inv_transfer st); cbn; auto; apply I. Qed.
 
-Lemma handle_write_inv : forall cfg st w size,
-  c_variant cfg = Repaired -> Inv st -> Inv (handle_write cfg st w size).
+Lemma handle_write_inv : forall cfg st w size acked,
+  c_variant cfg = Repaired -> Inv st -> Inv (handle_write cfg st w size acked).
 Proof.
-  intros cfg st w size V I. unfold handle_write.
+  intros cfg st w size acked V I. unfold handle_write.
   set (st0 := if c_max_entries cfg <=? s_since st then set_over st else st).
   assert (I0 : Inv st0) by (unfold st0; destruct (c_max_entries cfg <=? s_since st); auto using Inv_set_over).
   destruct (rot_append cfg st0 w size) as [st1 r] eqn:E.
@@ -507,9 +507,10 @@ Proof.
   destruct r.
   - destruct (R eq_refl) as [wr [C L]]. destruct I1 as [J1 [J2 [J3 J4]]].
     split; [|split; [|split]]; cbn; auto.
-    intros x Hx. apply in_app_or in Hx. destruct Hx as [Hx|[<-|[]]]; [exact (J2 x Hx)|].
+    intros x Hx. destruct acked; [|exact (J2 x Hx)].
+    apply in_app_or in Hx. destruct Hx as [Hx|[<-|[]]]; [exact (J2 x Hx)|].
     right. exists wr. auto.
-  - apply Inv_ack_false; exact I1.
+  - destruct acked; [apply Inv_ack_false; exact I1|exact I1].
   - exact I1.
   - exact I1.
 Qed.
@@ -657,7 +658,7 @@ Qed.
 Lemma step_inv : forall cfg st ev, c_variant cfg = Repaired -> Inv st -> Inv (step cfg st ev).
 Proof.
   intros cfg st ev V I. unfold step. destruct (s_halt st); [exact I|].
-  destruct ev; [apply handle_write_inv; auto|apply flush_inv; auto|apply truncate_inv; auto|apply shutdown_inv; auto].
+  destruct ev; [apply handle_write_inv; auto|apply handle_write_inv; auto|apply flush_inv; auto|apply truncate_inv; auto|apply shutdown_inv; auto].
 Qed.
 
 Lemma max_seq_bound : forall st p, In p st -> fst p <= max_seq st.
@@ -896,7 +897,7 @@ Proof. repeat split; vm_compute; reflexivity. Qed.
    WalRotator::append ("current_writer must exist after rotate") never fire - for either
    variant of the rotator. *)
 Definition Quiet (st : state) : Prop :=
-  s_panic st = false /\ N.of_nat (length (s_pending st)) = s_since st.
+  s_panic st = false /\ N.of_nat (length (s_pending st)) <= s_since st.
 
 Ltac crush_pairs :=
   repeat match goal with
@@ -960,8 +961,8 @@ Proof.
   unfold resolve_all.
   destruct (s_cur st) as [wr|].
   - unfold do_io. destruct (s_io st) as [|o l]; [split; auto|].
-    destruct o; split; cbn; try rewrite fold_ack_q; cbn; auto.
-  - split; cbn; try rewrite fold_ack_q; auto.
+    destruct o; split; cbn; try rewrite fold_ack_q; cbn; auto; lia.
+  - split; cbn; try rewrite fold_ack_q; auto; lia.
 Qed.
 
 Lemma shutdown_q : forall st, Quiet st -> Quiet (shutdown st).
@@ -979,19 +980,27 @@ Proof.
   destruct o as [|[| |]]; try apply IH; exact Q.
 Qed.
 
-Lemma step_q : forall cfg st ev, Quiet st -> Quiet (step cfg st ev).
+Lemma handle_write_q : forall cfg st w size acked, Quiet st -> Quiet (handle_write cfg st w size acked).
 Proof.
-  intros cfg st ev [P L]. unfold step. destruct (s_halt st); [split; auto|].
-  destruct ev as [w size| |t|]; [|apply flush_q; split; auto|apply truncate_files_q; split; auto|apply shutdown_q; split; auto].
-  unfold handle_write.
+  intros cfg st w size acked [P L]. unfold handle_write.
   set (st0 := if c_max_entries cfg <=? s_since st then set_over st else st).
   assert (Q0 : s_panic st0 = false /\ s_pending st0 = s_pending st /\ s_since st0 = s_since st).
   { unfold st0. destruct (c_max_entries cfg <=? s_since st); cbn; auto. }
   destruct Q0 as [P0 [L0 S0]].
   destruct (rot_append cfg st0 w size) as [st1 r] eqn:E.
   destruct (rot_append_q _ _ _ _ _ _ E) as [A [B C]]. destruct (C P0) as [P1 NP].
-  destruct r; try (split; cbn; congruence).
-  split; cbn; [exact P1|]. rewrite app_length. cbn. rewrite A, B, L0, S0. lia.
+  destruct r.
+  - split; cbn; [exact P1|]. destruct acked; [rewrite app_length; cbn|]; rewrite A, B, L0, S0; lia.
+  - destruct acked; split; cbn; try congruence; rewrite A, B, L0, S0; exact L.
+  - split; [exact P1|]. rewrite A, B, L0, S0; exact L.
+  - exfalso; apply NP; reflexivity.
+Qed.
+
+Lemma step_q : forall cfg st ev, Quiet st -> Quiet (step cfg st ev).
+Proof.
+  intros cfg st ev Q. unfold step. destruct (s_halt st); [exact Q|].
+  destruct ev as [w size|w size| |t|];
+    [apply handle_write_q; exact Q|apply handle_write_q; exact Q|apply flush_q; exact Q|apply truncate_files_q; exact Q|apply shutdown_q; exact Q].
 Qed.
 
 Lemma fold_step_q : forall cfg sched st, Quiet st -> Quiet (fold_left (step cfg) sched st).
@@ -1008,12 +1017,12 @@ Qed.
 
 Theorem never_panics : forall cfg hist,
   s_panic (run_incarnations cfg hist) = false /\
-  N.of_nat (length (s_pending (run_incarnations cfg hist))) = s_since (run_incarnations cfg hist).
+  N.of_nat (length (s_pending (run_incarnations cfg hist))) <= s_since (run_incarnations cfg hist).
 Proof. intros cfg hist. apply run_hist_q. split; reflexivity. Qed.
 
 Theorem never_panics_run : forall cfg sched io,
   s_panic (run cfg sched io) = false /\
-  N.of_nat (length (s_pending (run cfg sched io))) = s_since (run cfg sched io).
+  N.of_nat (length (s_pending (run cfg sched io))) <= s_since (run cfg sched io).
 Proof. intros cfg sched io. apply fold_step_q. split; reflexivity. Qed.
 
 
@@ -1049,13 +1058,13 @@ Proof.
     destruct o; [|destruct (c_variant cfg)]; inversion H; reflexivity.
 Qed.
 
-Lemma handle_write_rel : forall cfg st w size, s_released (handle_write cfg st w size) = s_released st.
+Lemma handle_write_rel : forall cfg st w size acked, s_released (handle_write cfg st w size acked) = s_released st.
 Proof.
-  intros cfg st w size. unfold handle_write.
+  intros cfg st w size acked. unfold handle_write.
   set (st0 := if c_max_entries cfg <=? s_since st then set_over st else st).
   assert (R0 : s_released st0 = s_released st) by (unfold st0; destruct (c_max_entries cfg <=? s_since st); reflexivity).
   destruct (rot_append cfg st0 w size) as [st1 r] eqn:E. rewrite <- R0, <- (rot_append_rel _ _ _ _ _ _ E).
-  destruct r; reflexivity.
+  destruct r; destruct acked; reflexivity.
 Qed.
 
 Lemma fold_ack_rel : forall ok l st,
@@ -1110,7 +1119,8 @@ Lemma step_rel : forall cfg st ev w, In w (s_released (step cfg st ev)) ->
   In w (s_released st) \/ exists t, ev = STruncate t /\ stamp w <= t.
 Proof.
   intros cfg st ev w H. unfold step in H. destruct (s_halt st); [left; exact H|].
-  destruct ev as [x size| |t|].
+  destruct ev as [x size|x size| |t|].
+  - rewrite handle_write_rel in H. left; exact H.
   - rewrite handle_write_rel in H. left; exact H.
   - rewrite flush_rel in H. left; exact H.
   - unfold truncate in H. apply truncate_files_rel in H. destruct H as [H|H]; [left; exact H|].
